@@ -19,6 +19,7 @@ type runCase struct {
 	Race     bool        `json:"race,omitempty"`
 	Funcs    []string    `json:"funcs,omitempty"`
 	Format   string      `json:"format,omitempty"`
+	Wrap     string      `json:"wrap,omitempty"`
 }
 
 // runVerdict is the classified outcome of a runCase.
@@ -39,7 +40,7 @@ func executeRunCase(s *vh.Session, c runCase) runVerdict {
 	}
 	rs := &vh.RunSpec{
 		Prog: c.Conv.Prog, Conv: c.Conv, Patterns: []string{"./" + c.Conv.ConvPkg},
-		Manifest: vh.DriverManifest{Mode: c.Mode, Values: c.Values, Methods: infos, Sharing: c.Sharing, Distinct: c.Distinct, Races: c.Race},
+		Manifest: vh.DriverManifest{Mode: c.Mode, Values: c.Values, Methods: infos, Sharing: c.Sharing, Distinct: c.Distinct, Races: c.Race, Wrap: c.Wrap},
 		Race:     c.Race, Seed: c.Seed, Funcs: c.Funcs, Format: c.Format,
 	}
 	out := s.Execute(rs)
